@@ -146,6 +146,25 @@ def gen_case(rng, rich_criterion=False, small=False):
             style = "zero_budget_wallclock"
         elif u < 0.16:
             params["rerun"] = True
+    if rich_criterion and rng.random() < 0.06:
+        # NO trial ever reports anything: every job fails or stops on its own before its first report (a job that
+        # completes without a report makes the tuner raise, so none completes); the finished budget has to end the run
+        # while overall_metric_statistics.count is still 0, max_failures is out of reach
+        style = "silent_ends"
+        profile.update(p_silent=1.0, p_first_report=0.0, p_complete=0.0, p_fail=rng.choice([0.3, 0.5]),
+                       p_stop_ext=rng.choice([0.0, 0.3]), p_stopping=0.0, p_pause=0.0, p_stop=0.0, p_none=0.0,
+                       p_resume_bad=0.0, polls=rng.choice([16, 25, 40]))
+        profile.pop("p_nonfinite", None); profile.pop("first_nan", None); profile.pop("max_failed_total", None)
+        params["polls_budget"] = profile["polls"]
+        params["max_failures"] = 50
+        params["wait"] = rng.random() < 0.3
+        params.pop("rerun", None)
+        crit = dict(max_num_trials_finished=rng.randint(0, 4))
+        if rng.random() < 0.5:   # further fields that cannot hold without a report / within the run
+            crit.update(rng.choice([dict(max_num_trials_completed=rng.randint(0, 3)), dict(max_cost=rng.randint(0, 8) / 4.0),
+                                    dict(max_num_evaluations=rng.randint(0, 5)), dict(min_metric_value=1.0),
+                                    dict(max_num_trials_started=rng.randint(20, 40))]))
+        params["criterion"] = crit
     if params["criterion"].get("max_wallclock_time") is not None and rng.random() < 0.6:
         # delay (fake clock) between constructing the Tuner and calling run(); the budget is for run()
         params["construct_gap"] = rng.choice([0.25, 1.0, 7.5, 100.0])
